@@ -37,11 +37,26 @@ pub(crate) fn add(ctx: &mut TulispContext) {
     intern_set_func!(ctx, mul, "*");
 
     fn div(ctx: &mut TulispContext, rest: &TulispObject) -> Result<TulispObject, Error> {
+        let oper = binary_ops!(std::ops::Div::div, i64::checked_div);
+        // Every argument is evaluated exactly once, before any is checked.
         let mut iter = rest.base_iter();
-        // Skip the first element, that can be zero.
-        iter.next();
+        let Some(first) = iter.eval_next(ctx) else {
+            return Err(Error::new(
+                ErrorKind::MissingArgument,
+                "Call to `/` without any arguments".to_string(),
+            ));
+        };
+        let mut acc = first?;
+        let mut divisors = Vec::new();
         while let Some(ele) = iter.eval_next(ctx) {
-            let ele = ele?;
+            divisors.push(ele?);
+        }
+        if divisors.is_empty() {
+            // (/ x) is the reciprocal of x.
+            divisors.push(acc);
+            acc = 1.into();
+        }
+        for ele in &divisors {
             if *ele.inner_ref() == TulispValue::from(0)
                 || *ele.inner_ref() == TulispValue::from(0.0)
             {
@@ -51,7 +66,10 @@ pub(crate) fn add(ctx: &mut TulispContext) {
                 ));
             }
         }
-        reduce_with(ctx, rest, binary_ops!(std::ops::Div::div, i64::checked_div))
+        for ele in &divisors {
+            acc = oper(&acc, ele)?;
+        }
+        Ok(acc)
     }
     intern_set_func!(ctx, div, "/");
 
